@@ -30,10 +30,10 @@ def one(d):
     sh(f"git -C /repo worktree remove --force {wt}")
     base = "HEAD"
     sh(f"git -C /repo worktree add -q --detach {wt} HEAD")
-    r = sh(f"git -C {wt} apply {d}/patch.diff")
-    if r.returncode != 0:
-        r = sh(f"cd {wt} && patch -p1 -s --fuzz=3 < {d}/patch.diff")
-        if r.returncode != 0:
+    r = sh(f"git -C {wt} apply {d}/patch.diff") if not meta.get("regress_on_recorded_commit") else None
+    if r is None or r.returncode != 0:
+        r = sh(f"cd {wt} && patch -p1 -s --fuzz=3 < {d}/patch.diff") if r is not None else r
+        if r is None or r.returncode != 0:
             sh(f"git -C /repo worktree remove --force {wt}")
             base = meta.get("repo_commit_the_patch_applies_to", "HEAD")
             sh(f"git -C /repo worktree add -q --detach {wt} {base}")
@@ -75,6 +75,19 @@ with cf.ThreadPoolExecutor(J) as ex:
         rows += res
         for r in res:
             print(*r, sep=" | ", flush=True)
+# merge with the rows of an earlier run when only some ids were requested
+old = {}
+try:
+    for line in open(f"{V}/seeded/REGRESSION.md"):
+        c = [x.strip() for x in line.strip().strip("|").split("|")]
+        if len(c) == 4 and re.match(r"C\d\d[a-z]$", c[0]):
+            old[c[0]] = tuple(c)
+except FileNotFoundError:
+    pass
+for r in rows:
+    old[r[0]] = tuple(r)
+if args:
+    rows = list(old.values())
 rows.sort()
 head = sh("git -C /repo rev-parse --short HEAD").stdout.strip()
 vh = sh(f"git -C {V} rev-parse --short HEAD").stdout.strip()
